@@ -31,7 +31,7 @@ IDS = {"name": 0x01010003, "versionCode": 0x0101021b, "versionName": 0x0101021c,
        "label": 0x01010001, "icon": 0x01010002, "exported": 0x01010010, "permission": 0x01010006, "authorities": 0x01010018, "value": 0x01010024,
        "process": 0x01010011, "theme": 0x01010000}
 
-SPECIALS = [None, None, None, None, "dotless-permission", "dotless-feature", "dotless-library", "attrs-without-namespace", "stripped-attr-names",
+SPECIALS = [None, None, None, None, "dotless-permission", "dotless-feature", "dotless-library", "attrs-without-namespace", "twin-plain-attrs", "stripped-attr-names",
             "disabled-launcher", "numbers-as-strings", "codename-sdk", "duplicate-permissions", "other-android-prefix", "hex-version-code", "no-resmap",
             "duplicate-components", "many-launchers"]
 
@@ -303,7 +303,18 @@ def to_doc(m, rng):
     top.insert(k, app)
     prefix = "a" if sp == "other-android-prefix" else "android"
     root = W.Elem(None, "manifest", nsdecls=[(prefix, A)], attrs=rattrs, children=top)
-    return W.Doc(root, utf8=m.utf8, with_resmap=with_resmap, sorted_attrs=rng.random() < 0.5)
+    if sp == "twin-plain-attrs":
+        # an un-namespaced attribute next to the android: one (Android ignores it; tools and protectors leave such twins behind)
+        def twins(e):
+            for a in list(e.attrs):
+                if a.ns == A and a.name in ("name", "targetActivity", "versionCode", "versionName", "minSdkVersion", "targetSdkVersion", "maxSdkVersion") and rng.random() < 0.6:
+                    decoy = W.Attr(None, a.name, W.TYPE_STRING, value=rng.choice(["Decoy", ".Decoy", "com.decoy.Twin", "android.permission.DECOY", "7"]))
+                    e.attrs.insert(rng.randrange(len(e.attrs) + 1), decoy)
+            for c in e.children:
+                if isinstance(c, W.Elem):
+                    twins(c)
+        twins(root)
+    return W.Doc(root, utf8=m.utf8, with_resmap=with_resmap, sorted_attrs=rng.random() < 0.5, attr_size=rng.choice((0x14,) * 12 + (0x18,)))
 
 
 # ---------------------------------------------------------------------------------------------------------------------
